@@ -980,6 +980,11 @@ def cached_script_view(
         return HttpResponseNotAllowed(["GET"])
 
     comp_cls = comp_hash_mapping.get(comp_cls_hash)
+    if comp_cls is None and input_hash is not None:
+        # The class name may itself contain dots (e.g. class made with `type()`). In that case the URL
+        # `cache/My.Comp_ab12cd.js` is matched as `comp_cls_hash="My"` and `input_hash="Comp_ab12cd"`.
+        comp_cls = comp_hash_mapping.get(f"{comp_cls_hash}.{input_hash}")
+        input_hash = None
     if comp_cls is None:
         return HttpResponseNotFound()
 
